@@ -1,0 +1,39 @@
+//go:build verif
+
+// Package verifhook provides instrumentation points for the verification
+// harness (build tag "verif").
+package verifhook
+
+import "sync/atomic"
+
+type handlers struct {
+	point func(site string, args ...any)
+	fault func(site string, args ...any) error
+}
+
+var current atomic.Pointer[handlers]
+
+// Install sets the handlers called by Point and Fault. Either may be nil.
+// Passing two nils removes the handlers.
+func Install(point func(site string, args ...any), fault func(site string, args ...any) error) {
+	if point == nil && fault == nil {
+		current.Store(nil)
+		return
+	}
+	current.Store(&handlers{point: point, fault: fault})
+}
+
+// Point marks a step of interest (scheduling / crash point).
+func Point(site string, args ...any) {
+	if h := current.Load(); h != nil && h.point != nil {
+		h.point(site, args...)
+	}
+}
+
+// Fault lets the harness inject an error at a step.
+func Fault(site string, args ...any) error {
+	if h := current.Load(); h != nil && h.fault != nil {
+		return h.fault(site, args...)
+	}
+	return nil
+}
